@@ -55,18 +55,21 @@ def main():
             print(json.dumps(res))
             return
         if '--skip-confirm' not in sys.argv:
-            env = dict(os.environ, CARGO_TARGET_DIR=os.path.join(tmp, 'target'))
+            env = dict(os.environ, CARGO_TARGET_DIR=os.path.join(tmp, 'target_mut'), RUST_BACKTRACE='0')
             rc, out = sh('cargo test --workspace --offline 2>&1 | tail -30', mut, env=env)
             res['confirm']['suite_passes_with_change'] = ('test result: FAILED' not in out) and ('error' not in out.lower().split('test result')[0][-2000:] or 'test result: ok' in out) and out.count('test result: ok') >= 3
             for name, tree in (('demo_fails_with_change', mut), ('demo_passes_without_change', clean)):
                 os.makedirs(os.path.join(tree, 'tests'), exist_ok=True)
                 shutil.copy(os.path.join(d, 'demo.rs'), os.path.join(tree, 'tests', 'demo.rs'))
+                env = dict(os.environ, CARGO_TARGET_DIR=os.path.join(tmp, 'target_mut' if tree == mut else 'target_clean'), RUST_BACKTRACE='0')
+                if '--test demo' in feats:
+                    feats = feats.replace('--test demo', '')
                 rc, out = sh('cargo test --offline %s --test demo 2>&1 | tail -40' % feats, tree, env=env)
                 ok = 'test result: ok' in out
                 failed = 'test result: FAILED' in out
                 res['confirm'][name] = failed if name.startswith('demo_fails') else ok
                 if (name.startswith('demo_fails') and not failed) or (name.startswith('demo_passes') and not ok):
-                    res['confirm'][name + '_output'] = out[-1500:]
+                    res['confirm'][name + '_output'] = out[-500:]
                 os.remove(os.path.join(tree, 'tests', 'demo.rs'))
         for p in props:
             rc, out = sh('./check %s' % p, ROOT, env=dict(os.environ, VERIF_REPO=mut), timeout=3600)
